@@ -228,7 +228,7 @@ def run(ctx: Ctx):
         # a clock / address / hash that is only reported (a duration in a log line) does not reach the computation: follow the value through the
         # locals it is assigned to; every use must be an argument of a logging / warning / print call or another such local
         nd_ids = {id(cs.node) for cs in nd_calls}
-        report_args = {id(x) for c in walk_no_nested(f.node) if isinstance(c, ast.Call) and (norm(c.func).split(".")[0] in ("logging", "logger", "log", "warnings", "LOGGER") or
+        report_args = {id(x) for c in walk_no_nested(f.node) if isinstance(c, ast.Call) and (norm(c.func).split(".")[0] in ("logging", "logger", "log", "warnings", "LOGGER", "_logger") or
                                                                                              norm(c.func) == "print") for a in list(c.args) + [k.value for k in c.keywords] for x in ast.walk(a)}
         tainted: set = set()
         changed = True
